@@ -46,6 +46,20 @@ const RESERVED: &[&str] = &[
     "void",
     "while",
     "with",
+    // reserved in strict mode code (ES modules are always strict), or not allowed as binding names there
+    "arguments",
+    "await",
+    "enum",
+    "eval",
+    "implements",
+    "interface",
+    "let",
+    "package",
+    "private",
+    "protected",
+    "public",
+    "static",
+    "yield",
 ];
 
 /// From https://developer.mozilla.org/en-US/docs/Web/JavaScript/Reference/Global_Objects.
